@@ -22,6 +22,12 @@ NOT_YET = {
 
 
 def check(pid, technique, text, ref):
+    obl = json.load(open(os.path.join(VERIF, "lean", "obligations.json")))
+    proved = bool(obl.get(pid, {}).get("theorems"))
+    if not proved:
+        text = ("[theorems for this property are not integrated yet: this "
+                "check currently decides it by correspondence + direct oracle "
+                "only] " + text)
     return {
         "property_id": pid,
         "quick_cmd": "./check %s --tier quick" % pid,
@@ -29,7 +35,8 @@ def check(pid, technique, text, ref):
         "evidence_file": "evidence/%s.json" % pid,
         "replay_cmd_template": "./check %s --replay {path}" % pid,
         "engine": "lean-proof+correspondence",
-        "level_claimed": {"category": "proof", "text": text,
+        "level_claimed": {"category": "proof" if proved else "exploration",
+                          "text": text,
                           "design_ref": ref},
         "level_note": LEVEL_NOTE,
         "technique": technique,
